@@ -314,8 +314,13 @@ def rule_R12_for_ref(text: str, counts: dict) -> str:
         hit = None
         for p, i in enumerate(sig):
             if toks[i].kind == "ident" and toks[i].text == "for" and p + 4 < len(sig):
-                if toks[sig[p + 1]].kind == "ident" and toks[sig[p + 2]].text == "in" and toks[sig[p + 3]].text == "&":
-                    q = p + 4
+                amp = toks[sig[p + 3]].text == "&"
+                # also `for X in P {` where P is a parameter declared `P: &[T]` (iterating a shared slice
+                # yields its elements by reference in order, exactly like `&E` above)
+                slice_param = (not amp and toks[sig[p + 3]].kind == "ident" and toks[sig[p + 4]].text == "{"
+                               and re.search(r"\b" + re.escape(toks[sig[p + 3]].text) + r"\s*:\s*&\s*\[", text[:rustlex.fn_shape(text).sig_end] if text.lstrip().startswith(("pub", "fn", "const", "async", "unsafe")) else "") is not None)
+                if toks[sig[p + 1]].kind == "ident" and toks[sig[p + 2]].text == "in" and (amp or slice_param):
+                    q = p + 4 if amp else p + 3
                     expr = []
                     while q < len(sig) and (toks[sig[q]].kind == "ident" or toks[sig[q]].text == "."):
                         expr.append(toks[sig[q]].text)
